@@ -460,7 +460,8 @@ class Plane:
                 # contained in adjacent masks that may be present in the sliced
                 # amp and opd arrays.
                 mask = self.mask if self.size == 1 else self.mask[n]
-                amp = self.amplitude if self.amplitude.size == 1 else self.amplitude[s] * mask[s]
+                # a scalar amplitude is still confined to the mask
+                amp = (self.amplitude if self.amplitude.size == 1 else self.amplitude[s]) * mask[s]
                 opd = self.opd if self.opd.size == 1 else self.opd[s]
 
                 # construct complex phasor
